@@ -1044,11 +1044,23 @@ impl Router {
             self.scheduler.track(id, request);
             self.scheduler.reschedule(id, ScheduleReason::NewFilter);
             debug_assert!(self.scheduler.check_tracker_duplicates(id).is_none())
+        } else {
+            // a repeated SUBSCRIBE replaces the QoS of the existing subscription: the
+            // SUBACK grants it, so what is forwarded from here on has to use it
+            // (the request is with the tracker, parked on its log, or was just woken by a
+            // publish earlier in this batch)
+            let qos = filter.qos as u8;
+            self.scheduler.update_qos(id, filter_path, qos);
+            self.datalog.update_waiter_qos(id, filter_path, qos);
+            for (conn_id, request) in self.notifications.iter_mut() {
+                if *conn_id == id && request.filter == *filter_path {
+                    request.qos = qos;
+                }
+            }
         }
 
         // TODO: figure out how we can update existing DataRequest
-        // helpful in re-subscriptions and forwarding retained messages on
-        // every subscribe
+        // helpful in forwarding retained messages on every subscribe
 
         let meter = &mut self.ibufs.get_mut(id).unwrap().meter;
         meter.register_subscription(filter_path.clone());
